@@ -62,6 +62,9 @@ DESIGNED_NOT_REGISTERED = [
     ('O3.cg_component[n=2; max_cg_iters=2]', 'explicit 2-D vectors with a symbolic symmetric Hessian, 2 iterations: iteration-2 exits unknown at 30 s per query; iteration 2 is covered in moment form for any dimension, n=2 component mode is registered for the first iteration'),
     ('O4.treigen_hard_case[symbolic eigenbasis; rotation]/hard_case:step_on_boundary[<=] on inputs where the stationarity lemma fails', 'with a symbolic non-symmetric eigenvector matrix and a step that is NOT stationary along the higher eigenvector (unchanged tree: z = v[0]) z3 needs 43 s (nlsat, after 30 s of core) / unknown at 300 s without the norm-preservation lemma; the goal is therefore evaluated in phase 2 (only when the stationarity lemma is discharged) for a symbolic eigenbasis and unconditionally for the concrete rotations (< 0.1 s)'),
     ('O4.treigen whole function with the secular loop unrolled to one pass (no invariant)', 'did not finish in 20 min; the loop is covered for any number of passes by the 1-induction O4.treigen_secular_loop_base/step/exit'),
+    ('O5.subspace_model_problem[3 vectors] and [2 vectors; explicit dimension 3]', 'Gram mode with 3 added vectors: sqrt_defined / basis_is_finite (positivity of the third Gram-Schmidt norm from the 3x3 Gram determinant) unknown at 60 s; '
+     'component mode (explicit 3-vectors, symbolic 3x3 K): sqrt_defined, basis_is_finite, orthonormality and the entry/model identities unknown at 60 s (406 s wall). Both variants do find the unsymmetrised-reduced-matrix '
+     'seed (the harness factory make_model_problem(N, n) is kept), but cannot be discharged on the correct tree; the registered 2-vector Gram form is dimension-free and discharges in < 1 s'),
     ('O2.dogleg_component/dogleg[n=2] projection exit', 'inside_region / on_the_dogleg_path unknown at 60 s in explicit 2-D (as in the design probe); the projection exit is discharged in Gram form (O2.dogleg_gram) for any dimension'),
 ]
 
@@ -696,6 +699,24 @@ _reg_cg_component(2, 1, False, 'identity', 'trust_region_cg', ('quick', 'thoroug
 
 
 # =========================================================================================== O4 treigen
+class AtArray(onp.ndarray):
+    """object array with the functional update syntax of jax arrays: a.at[idx].set(value) returns an updated copy"""
+
+    @property
+    def at(self):
+        arr = self
+
+        class _At:
+            def __getitem__(self, idx):
+                class _Set:
+                    def set(self, val):
+                        out = onp.array(arr, dtype=object).view(AtArray)
+                        out[idx] = val
+                        return out
+                return _Set()
+        return _At()
+
+
 class _NPRec:
     """px.NP plus a record of which numpy functions the code under test called (used to tell the exits of treigen.solve apart)"""
 
@@ -715,6 +736,9 @@ class _NPRec:
             r = NP.sqrt(x)
         self.last_sqrt = (x, r)
         return r
+
+    def zeros(self, shape, dtype=None):
+        return onp.zeros(shape, dtype=object).view(AtArray)
 
     def mean(self, a):
         a = onp.asarray(a, dtype=object) if px._has_sym(a) else onp.asarray(a)
@@ -1077,7 +1101,9 @@ def make_treigen(zero_matrix=False, max_secular_iters=0, rotation=None, reflect=
 def _treigen_meta(h):
     h.encoded('optimism.treigen.treigen:solve', 'optimism.treigen.treigen:pnorm_squared', 'optimism.treigen.treigen:qnorm_squared')
     h.assume_note('stub (contract): numpy/jax eigh returns ascending eigenvalues and an orthogonal eigenvector matrix with A = v diag(sig) v^T; n=2: v = rotation(c,s), c^2+s^2=1, '
-                  'optionally with the second column reflected; the matrix handed to solve is built from (sig, v); in a replay the REAL numpy.linalg.eigh is applied to the concrete matrix',
+                  'optionally with the second column reflected; the matrix handed to solve is built from (sig, v) and is symmetric; in a replay the REAL numpy.linalg.eigh is applied to the concrete matrix',
+                  'eigh symmetrisation semantics (jax.numpy.linalg.eigh, symmetrize_input=True, as called by treigen.solve): for ANY square input H the decomposition returned is that of (H + H^T)/2; '
+                  'the O4 obligations hand it a symmetric matrix, O5 checks that the reduced matrix ModelProblem hands over IS symmetric and that (H + H^T)/2 is the restriction of the full Hessian',
                   'x/0 is a poisoned value (NaN); a poisoned returned step fails step_is_finite',
                   'hard-case tolerance of the optimality claim: 4e-12 * mean|sig| * Delta^2 (the code regularises with eps = 1e-12 mean|sig|; the exact minimiser of the eps-perturbed problem differs by at most that in model value)')
     h.outside('treigen n >= 3; termination of the secular while loop; IEEE rounding')
@@ -1312,3 +1338,128 @@ _reg_secular('base', 'the real statements of treigen.solve before the secular lo
 _reg_secular('step', 'one pass of the real loop body from any state satisfying the invariant and the loop test re-establishes the invariant (Newton on the secular equation does not overshoot)')
 _reg_secular('exit', 'from any state satisfying the invariant and the negated loop test the real return statement yields a certified global minimiser (norm within 1e-9 of the radius)')
 
+
+
+# =========================================================================================== O5 the sub-space model problem
+class _Vecs:
+    """the two vector representations behind one interface: Gram vectors (any dimension) or explicit numpy vectors of dimension n"""
+
+    def __init__(self, ex, n):
+        self.ex, self.n = ex, n
+        if n is None:
+            self.K = SymOp(ex, 'K')
+        else:
+            Km = ex.mat('K', n, n, symmetric=True)
+            self.K = lambda v: NP.dot(Km, v)
+
+    def vec(self, name):
+        return self.ex.gram_base(name) if self.n is None else self.ex.vec(name, self.n)
+
+    def comps(self, a):
+        """coefficient list of a vector (aligned between two vectors by `pair`)"""
+        return list(a.c.values()) if self.n is None else list(onp.asarray(a, dtype=object).reshape(-1))
+
+    def pair(self, a, b):
+        if self.n is None:
+            keys = sorted(set(a.c) | set(b.c))
+            return [a.c.get(k, 0.0) for k in keys], [b.c.get(k, 0.0) for k in keys]
+        return self.comps(a), self.comps(b)
+
+
+def make_model_problem(N, n=None):
+    """real ModelProblem (add_vector x N, setup_system, solve) in Gram mode: N arbitrary linearly independent vectors w_k of any
+    dimension, K a symmetric operator (Gram canonicalisation), gradient g; treigen.solve is a stub returning an ARBITRARY coefficient vector"""
+    def fn(ex):
+        install_poison_division(ex)
+        mod, es = load_sub(ex)
+        vs = _Vecs(ex, n)
+        K = vs.K
+        g = vs.vec('g')
+        w = [vs.vec('w%d' % k) for k in range(N)]
+        # linear independence of the added vectors (leading principal minors of their Gram matrix positive)
+        G = lambda i, j: w[i] @ w[j]
+        ex.assume(G(0, 0) > 0)
+        if N >= 2:
+            ex.assume(G(0, 0) * G(1, 1) - G(0, 1) * G(0, 1) > 0)
+        if N >= 3:
+            a, b_, c_, d, e, f = G(0, 0), G(1, 1), G(2, 2), G(0, 1), G(0, 2), G(1, 2)
+            ex.assume(a * (b_ * c_ - f * f) - d * (d * c_ - f * e) + e * (d * f - b_ * e) > 0)
+        Delta = ex.real('Delta')
+        ex.assume(Delta > 0)
+        coef = ex.vec('coef', N)            # what the eigen-solver returns: any coefficient vector
+        seen = {}
+
+        def solve_stub(H, gr, D):
+            seen['H'], seen['g'], seen['Delta'] = H, gr, D
+            return coef
+        mod.treigen = types.SimpleNamespace(solve=solve_stub)
+        mp = mod.ModelProblem(g)
+        with onp.errstate(all='ignore'):
+            for k in range(N):
+                mp.add_vector(w[k], K(w[k]))
+            mp.setup_system()
+            step = mp.solve(Delta)
+        V, KV = mp.v, mp.Kv
+        flat = []
+        for vk in V + KV + [step]:
+            flat += vs.comps(vk)
+        finite = all_finite(flat)
+        add_goal(ex, 'basis_is_finite', Holds(finite), info='division by a zero norm although the added vectors are linearly independent')
+        if not finite:
+            return
+        add_goal(ex, 'solver_called_with_the_stored_reduced_system', Holds(seen.get('H') is mp.H and seen.get('g') is mp.g and seen.get('Delta') is Delta))
+        H, gr = onp.asarray(mp.H, dtype=object), onp.asarray(mp.g, dtype=object)
+        add_goal(ex, 'reduced_system_has_the_right_shape', Holds(H.shape == (N, N) and gr.shape == (N,) and len(V) == N and len(KV) == N))
+
+        def gv_eq(name, a, b):
+            ca, cb = vs.pair(a, b)
+            add_goal(ex, name, Eq(U(ca), U(cb)) if ca else Holds(True))
+        for k in range(N):
+            gv_eq('stored_product_is_K_times_basis_vector', KV[k], K(V[k]))
+        add_goal(ex, 'basis_is_orthonormal', Eq(U([V[i] @ V[j] for i in range(N) for j in range(N)]), [1.0 if i == j else 0.0 for i in range(N) for j in range(N)]))
+        add_goal(ex, 'reduced_gradient_is_Vt_g', Eq(U([gr[i] for i in range(N)]), U([V[i] @ g for i in range(N)])))
+        add_goal(ex, 'reduced_matrix_is_Vt_K_V_entry_by_entry', Eq(U([H[i, j] for i in range(N) for j in range(N)]), U([V[i] @ K(V[j]) for i in range(N) for j in range(N)])),
+                 info='both triangles of the matrix handed to the eigen-solver must hold v_i.K v_j')
+        add_goal(ex, 'reduced_matrix_is_symmetric', Eq(U([H[i, j] for i in range(N) for j in range(N)]), U([H[j, i] for i in range(N) for j in range(N)])))
+        # the model the eigen-solver minimises (eigh decomposes (H + H^T)/2) is the restriction of the full model to the span
+        c = ex.vec('c', N)
+        x = c[0] * V[0]
+        for i in range(1, N):
+            x = x + c[i] * V[i]
+        full = g @ x + 0.5 * (x @ K(x))
+        red = 0.0
+        for i in range(N):
+            red = red + c[i] * gr[i]
+            for j in range(N):
+                red = red + 0.5 * c[i] * (0.5 * (H[i, j] + H[j, i])) * c[j]
+        add_goal(ex, 'reduced_model_is_the_restriction_of_the_full_model', Eq(U(red), U(full)), info='for the coefficient vector c: reduced model(c) != full model(V c)')
+        xs = coef[0] * V[0]
+        for i in range(1, N):
+            xs = xs + coef[i] * V[i]
+        gv_eq('returned_step_is_V_times_the_solver_coefficients', step, xs)
+    return fn
+
+
+MP_GOALS = ['basis_is_finite', 'solver_called_with_the_stored_reduced_system', 'reduced_system_has_the_right_shape', 'stored_product_is_K_times_basis_vector', 'basis_is_orthonormal',
+            'reduced_gradient_is_Vt_g', 'reduced_matrix_is_Vt_K_V_entry_by_entry', 'reduced_matrix_is_symmetric', 'reduced_model_is_the_restriction_of_the_full_model',
+            'returned_step_is_V_times_the_solver_coefficients']
+
+
+def _reg_model_problem(N, tiers, cap, n=None):
+    @obligation(P, 'O5.subspace_model_problem[%d vectors%s]' % (N, '' if n is None else '; explicit dimension %d' % n), tiers=tiers, cap=cap)
+    def ob(h):
+        h.encoded('optimism.EquationSolverSubspace:ModelProblem.add_vector', 'optimism.EquationSolverSubspace:ModelProblem.setup_system', 'optimism.EquationSolverSubspace:ModelProblem.solve')
+        h.bounds(('real ModelProblem with %d added vectors in ANY dimension (Gram mode): arbitrary linearly independent vectors w_k, their products K w_k with a symmetric operator K '
+                  '(<K a, b> = <a, K b> by canonicalisation), arbitrary gradient g, Delta > 0; the reduced model is compared with the full model at an ARBITRARY coefficient vector c' % N) if n is None else
+                 ('real ModelProblem with %d added vectors of dimension %d on explicit numpy vectors (component mode): symbolic linearly independent vectors, symbolic symmetric matrix K, gradient, Delta > 0, '
+                  'arbitrary coefficient vector c; in a replay the real source runs on float arrays' % (N, n)))
+        h.assume_note('stub: treigen.solve returns an arbitrary coefficient vector (its own guarantees: O4); contract used for the composition: the eigen-solver decomposes (H + H^T)/2 of the matrix it is handed '
+                      '(jax eigh, symmetrize_input=True), so "minimiser of the reduced model" (O4) composed with this obligation gives "minimiser of the full model over the span, |V c| = |c|"',
+                      'jax functional updates a.at[i].set(x) are modelled by an object array with the same syntax (copy, then assign); x/0 is a poisoned value')
+        h.outside('linearly dependent added vectors (zero norm after orthogonalisation); more than %d vectors; IEEE rounding (loss of orthogonality)' % N)
+        px.run_px(h, 'model_problem', make_model_problem(N, n), cap=60, sqrt_mode='goal', expect_goals=MP_GOALS)
+    ob.__doc__ = 'the reduced system ModelProblem hands to treigen.solve is V^T K V (entry by entry, symmetric) and V^T g with V orthonormal: the reduced model is the restriction of the full model to the span, and the returned step is V times the solver output'
+    return ob
+
+
+_reg_model_problem(2, ('quick', 'thorough'), 600)
